@@ -181,15 +181,17 @@ def run(module, cfg_text, *, workers=None, simulate=None, depth=None, seed=None,
         if env:
             e.update(env)
         t0 = time.time()
-        try:
-            p = subprocess.run(cmd, cwd=work, env=e, stdout=subprocess.PIPE,
-                               stderr=subprocess.STDOUT, timeout=timeout)
-        except subprocess.TimeoutExpired as exc:
-            raise TLCError('TLC timed out after %ss on %s' % (timeout, module)) from exc
+        outpath = os.path.join(work, 'tlc.out')
+        with open(outpath, 'wb') as ofh:
+            try:
+                p = subprocess.run(cmd, cwd=work, env=e, stdout=ofh, stderr=subprocess.STDOUT,
+                                   timeout=timeout)
+            except subprocess.TimeoutExpired as exc:
+                raise TLCError('TLC timed out after %ss on %s' % (timeout, module)) from exc
         res.wall_s = time.time() - t0
         res.rc = p.returncode
-        out = p.stdout.decode('utf-8', 'replace')
-        res.out = out
+        res.out = _read_bounded(outpath)
+        out = res.out
         _parse(res)
         if res.rc != 0 and not res.violations:
             raise TLCError('TLC failed on %s (rc=%s):\n%s' % (
@@ -198,6 +200,32 @@ def run(module, cfg_text, *, workers=None, simulate=None, depth=None, seed=None,
     finally:
         if not keep:
             shutil.rmtree(work, ignore_errors=True)
+
+
+MAX_VIOLATION_BLOCKS = 60
+
+
+def _read_bounded(path):
+    """TLC's output, keeping every emitted JSON line and statistics line but only the first
+    MAX_VIOLATION_BLOCKS error traces (with -continue a falsified invariant is reported for
+    every offending state)."""
+    keep = []
+    blocks = 0
+    skipping = False
+    with open(path, 'r', errors='replace') as fh:
+        for line in fh:
+            if line.startswith('"'):
+                keep.append(line)
+                continue
+            if ('is violated' in line or line.startswith('Error: Deadlock')) and not line.startswith('/'):
+                blocks += 1
+                skipping = blocks > MAX_VIOLATION_BLOCKS
+            elif skipping and (_STAT.search(line) or line.startswith(('Finished in', 'Model checking',
+                                                                      'The depth', 'Progress'))):
+                skipping = False
+            if not skipping:
+                keep.append(line)
+    return ''.join(keep)
 
 
 def _tail(out, n=60):
